@@ -927,7 +927,7 @@ func (y *IfFeature) Evaluate(enabled map[string]*Feature) (bool, error) {
 	e.eval(false)
 	b := e.pop()
 	err := e.lastErr
-	if err == nil && len(e.stack) != 0 {
+	if err == nil && (len(e.stack) != 0 || !e.end()) {
 		return false, errors.New("syntax err in feature expression:" + y.expr)
 	}
 	return b, err
@@ -943,11 +943,23 @@ type ifFeatureEval struct {
 
 func (y *ifFeatureEval) eval(greedy bool) {
 	for !y.end() {
+		start := y.pos
 		tok := y.next()
 		switch tok {
+		case "":
+			// only blanks were left
+			return
 		case "(":
 			y.eval(false)
+			// the group ends at its own closing parenthesis, whatever operator
+			// was evaluated last inside of it
+			if y.next() != ")" {
+				y.lastErr = errors.New("syntax err in feature expression:" + y.expr)
+				return
+			}
 		case ")":
+			// belongs to the group that opened it
+			y.pos = start
 			return
 		case "and":
 			y.eval(true)
